@@ -262,6 +262,33 @@ Fixpoint restore (e : entry) (outs : list output) (ws : list (key * N)) : bool *
       end
   end.
 
+(* Where extract_objects stages an output before the atomic rename: a temp file created IN THE DIRECTORY OF THE
+   OUTPUT (NamedTempFile::new_in(path.parent())), never in the server's own temp directory.  [dirname] is the path
+   up to the last '/'. *)
+Fixpoint dirname_aux (l acc cur : list N) : list N :=
+  match l with
+  | [] => acc
+  | c :: r => if c =? 47 then dirname_aux r (acc ++ cur ++ [47]) [] else dirname_aux r acc (cur ++ [c])
+  end.
+Definition dirname (p : bytes) : bytes := dirname_aux p [] [].
+
+Definition stage_dir (o : output) : bytes := dirname (o_path o).
+
+(* rename(2) fails with EXDEV when source and destination directories are on different mounts.  [mnt] assigns a
+   mount to every directory; the restore that takes the mounts into account: *)
+Fixpoint restore_mounted (mnt : bytes -> N) (e : entry) (outs : list output) (ws : list (key * N))
+  : bool * list (key * N) :=
+  match outs with
+  | [] => (true, ws)
+  | o :: r =>
+      match alookup (o_role o) e with
+      | Some c => if mnt (stage_dir o) =? mnt (dirname (o_path o))
+                  then restore_mounted mnt e r (ains (o_path o) c ws)
+                  else (false, ws)                       (* EXDEV: "sccache: encountered fatal error" *)
+      | None => if o_optional o then restore_mounted mnt e r ws else (false, ws)
+      end
+  end.
+
 (* CacheWrite::from_objects *)
 Fixpoint collect (ws : list (key * N)) (outs : list output) : option entry :=
   match outs with
@@ -390,7 +417,9 @@ Inductive event :=
 | EReq (r : request)
 | EDelete (p : bytes)                 (* someone deletes a file of the client (e.g. an earlier output) *)
 | ERestart                            (* server stop + start on the same SCCACHE_DIR, same capacity *)
-| EIdle.                              (* nothing happens for a while *)
+| EIdle                               (* nothing happens for a while *)
+| EDamage (p : key) (sz : N).         (* the entry file at cache path p is damaged (truncated to sz bytes, no longer a
+                                         readable entry): a crash of the machine, a full disk, a bad copy *)
 
 Definition restart (w : world) : world :=
   {| w_store := reopen (w_store w) (cap (w_store w)); w_content := w_content w; w_ws := w_ws w;
@@ -400,12 +429,24 @@ Definition delete_file (w : world) (p : bytes) : world :=
   {| w_store := w_store w; w_content := w_content w; w_ws := aremove p (w_ws w);
      w_pp := w_pp w; w_compiles := w_compiles w; w_pre_runs := w_pre_runs w |}.
 
+(* the file keeps its place in the running server's index (with the size recorded there); its bytes are no longer
+   an entry ([w_content] forgets them: a lookup opens the file and fails to read it), size and mtime change *)
+Definition damage (w : world) (p : key) (sz : N) : world :=
+  match alookup p (files (w_store w)) with
+  | None => w
+  | Some _ =>
+      {| w_store := tick (set_files (w_store w) (ains p (sz, clock (w_store w) + 1) (files (w_store w))));
+         w_content := aremove p (w_content w); w_ws := w_ws w;
+         w_pp := w_pp w; w_compiles := w_compiles w; w_pre_runs := w_pre_runs w |}
+  end.
+
 Definition step_event (w : world) (e : event) : world * option outcome :=
   match e with
   | EReq r => let '(w', o) := do_request w r in (w', Some o)
   | EDelete p => (delete_file w p, None)
   | ERestart => (restart w, None)
   | EIdle => (w, None)
+  | EDamage p sz => (damage w p sz, None)
   end.
 
 Definition run_events (w : world) (h : list event) : world :=
@@ -429,9 +470,17 @@ Fixpoint requests_of (h : list event) : list request :=
   end.
 
 (* no request of the history maps to the cache path of r (for a collision-free key
-   function: no request of the history has r's fingerprint) *)
+   function: no request of the history has r's fingerprint) and r's entry file is not damaged *)
+Fixpoint damaged_of (h : list event) : list key :=
+  match h with
+  | [] => []
+  | EDamage p _ :: t => p :: damaged_of t
+  | _ :: t => damaged_of t
+  end.
+
 Definition unrelated (r : request) (h : list event) : bool :=
-  forallb (fun r' => negb (bytes_eqb (req_path r') (req_path r))) (requests_of h).
+  forallb (fun r' => negb (bytes_eqb (req_path r') (req_path r))) (requests_of h)
+  && forallb (fun p => negb (bytes_eqb p (req_path r))) (damaged_of h).
 
 (* "the stored entries stay within the capacity": every request of the history would fit beside what is
    indexed, and at every restart the entry files fit and none carries the temp-file prefix.  Computable along
